@@ -13,6 +13,13 @@ Instants are integer seconds since the epoch (UTC; naive times are taken as if U
 dates and the generation of calendar points / cuts is done here with pandas (trusted base), exactly the way the
 implementation calls pandas; if such a pandas call raises, the case is classed `pandas-error`, the implementation
 must raise the same class and the model is not asked.
+
+Coarse grids: a pair of coarse cuts that holds no point of the reference grid (the window reaches beyond the reference grid)
+is SKIPPED by code and model alike: the coarse steps are the non-empty intervals (placements `beyond_*`, `before`, `after`,
+`straddle_*` of the coarse stream).  A `ValueError: zero-size array` from the coarse branch is reported as kind
+`coarse_empty_raises` (that part of finding F-19b is repaired; it is not covered by the known finding any more).  An EMPTY
+coarse grid (no pair of cuts holds a reference point) has an empty array of time points of the reference's type, so interval
+data on it gives the empty array (finding F-19e, repaired).
 """
 import datetime as dtm
 import json
@@ -435,8 +442,11 @@ def gen_case(rnd, kind=None, small=False):
             k = pd.Timedelta(days=30)
         # window placements for the coarse grid: aligned whole multiples, remainders, outside the grid
         pl = rnd.choice(['whole'] * 6 + ['remainder'] * 4 + ['none_both'] * 4 + ['equal', 'equal', 'inside', 'inside', 'offgrid', 'offgrid',
-                         'straddle_end', 'straddle_start', 'straddle_both', 'empty', 'after', 'prefix', 'suffix'])
-        if pl in ('whole', 'remainder'):
+                         'straddle_end', 'straddle_start', 'straddle_both', 'empty', 'after', 'before', 'prefix', 'suffix']
+                        + ['beyond_start'] * 3 + ['beyond_end'] * 3 + ['beyond_both'] * 3)
+        if pl.startswith('beyond'):
+            w = gen_beyond_window(rnd, pl, S, E, allp, k, tz)
+        elif pl in ('whole', 'remainder'):
             T = len(allp) - 1
             i = rnd.randint(0, max(0, T - 1))
             s = allp[i]
@@ -466,6 +476,36 @@ def gen_case(rnd, kind=None, small=False):
             case['window'] = gen_window(rnd, g, S, E, allp, placement=rnd.choice(['inside', 'prefix', 'suffix', 'equal']))
         case['prices'] = {'n': rnd.randint(1, 3), 'dlen': rnd.choice([0, 0, 0, 0, 0, 1, -1]), 'seed': rnd.getrandbits(30), 'nan': rnd.random() < 0.15}
     return case
+
+
+def gen_beyond_window(rnd, pl, S, E, allp, k, tz):
+    """window of a coarse grid that reaches beyond the reference grid [S, E) at the start, the end or both, by whole coarse
+    steps (coarse intervals entirely outside), by a part of one (the interval at the edge is partly outside), or both; the side
+    that does not reach beyond lies on a grid point, on a coarse cut counted from the window start (no remainder), or on the
+    edge of the reference grid.  k: length of a coarse step (nominal for calendar frequencies)."""
+    T = len(allp) - 1
+
+    def out():
+        d = k * (rnd.choice([0, 1, 1, 2, 3]) + rnd.choice([0, 0, 0.25, 0.5, 0.75]))
+        return d if d > pd.Timedelta(0) else k
+    if pl in ('beyond_start', 'beyond_both'):
+        s = S - out()
+    else:
+        s = allp[rnd.randint(0, max(0, T - 1))] if rnd.random() < 0.6 else S
+    if pl in ('beyond_end', 'beyond_both'):
+        e = E + out()
+    else:
+        r = rnd.random()
+        if r < 0.35:
+            e = E
+        elif r < 0.75:
+            # on one of the window's own coarse cuts inside the reference grid (if there is one)
+            m_lo = int((S - s) / k) + 1
+            m_hi = int((E - s) / k)
+            e = s + rnd.randint(m_lo, m_hi) * k if m_hi >= m_lo else E
+        else:
+            e = allp[rnd.randint(1, T)]
+    return {'s': _wspec(rnd, fl(s), tz), 'e': _wspec(rnd, fl(e), tz), 'placement': pl}
 
 
 def gen_coarse_dst_case(rnd):
@@ -848,7 +888,7 @@ def cmp_grid(tag, m, i, exact=True, with_df=True):
     if ('err' in m) != ('err' in i):
         return ['%s: model %s vs implementation %s' % (tag, m.get('err', 'ok'), i.get('err', 'ok') + ' ' + i.get('msg', ''))]
     if 'err' in m:
-        cls = {'assert': 'assert', 'empty-coarse': 'value', 'index': 'index', 'overlap': 'value', 'length': 'value'}[m['err']]
+        cls = {'assert': 'assert', 'index': 'index', 'overlap': 'value', 'length': 'value'}.get(m['err'], 'unknown:' + str(m['err']))
         if cls != i['err']:
             out.append('%s: error class model %s (%s) vs implementation %s %s' % (tag, m['err'], cls, i['err'], i.get('msg', '')))
         return out
@@ -889,22 +929,9 @@ def compare(case, ir, mr):
         out.append('coarse: ' + mr['cuts_mismatch'])
     if 'values' in ir or 'values' in mr:
         i, m = ir.get('values'), mr.get('values')
-        empty_coarse = 'coarse' in ir and not ir['coarse'].get('same_freq', True) and ir['coarse'].get('T') == 0
-        if empty_coarse:
-            # quirk: the points of an EMPTY coarse grid are a float array; comparing it with a Timestamp raises
-            # TypeError (as soon as there is at least one interval to loop over)
-            d = case['data']
-            ns = 1 if d['container'] == 'scalar' else len(d['start'])
-            ne = (0 if d['prep'] else ns) if d['end'] is None else (1 if d['container'] == 'scalar' and len(d['end']) == len(d['start']) else len(d['end']))
-            nv = 1 if d['vform'] == 'scalar' else len(d['values'])
-            if i is None or 'pandas-error' in (m or {}):
-                pass
-            elif min(ns, ne, nv) > 0:
-                if i.get('err') not in ('type',):
-                    out.append('values: expected TypeError on an empty coarse grid, implementation gave %s' % i)
-            elif i.get('ok') != []:
-                out.append('values: expected [] on an empty coarse grid without intervals, implementation gave %s' % i)
-        elif i is None or m is None:
+        # (an EMPTY coarse grid used to have a float array as points, so that values_to_grid raised TypeError: finding F-19e,
+        #  repaired - its points are an empty array of time points and the comparison below applies as to any grid)
+        if i is None or m is None:
             out.append('values: stage present on one side only')
         elif 'skip' in i:
             pass
@@ -1030,8 +1057,9 @@ def oracle(case, ir):
             if ir['coarse']['err'] == 'assert' and fa < fp:
                 pass      # documented rejection: finer than the reference
             elif ir['coarse']['err'] == 'value' and 'zero-size' in ir['coarse'].get('msg', ''):
-                V.append(_viol('coarse_partition', 'coarse grid raises: a coarse interval contains no fine step (%s)' % ir['coarse']['msg'],
-                               kind='coarse_remainder', how='raised', **facts))
+                # (was part of known finding F-19b until empty intervals were skipped: now a violation of its own kind)
+                V.append(_viol('coarse_partition', 'coarse grid raises: a coarse interval contains no fine step, i.e. the window reaches beyond the reference grid (%s)' % ir['coarse']['msg'],
+                               kind='coarse_empty_raises', how='raised', **facts))
             elif ir['coarse']['err'] == 'index':
                 V.append(_viol('coarse_partition', 'coarse grid on a restricted reference raises IndexError (%s)' % ir['coarse']['msg'],
                                kind='coarse_on_restricted_ref', how='raised', **facts))
@@ -1047,6 +1075,11 @@ def oracle(case, ir):
                 flat = [x for m in minor for x in m]
                 if any(len(m) == 0 for m in minor):
                     V.append(_viol('coarse_partition', 'empty minor list', kind='coarse_empty_minor', **facts))
+                lens = {'I': len(c.I), 'timepoints': len(c.timepoints), 'dt': len(c.dt), 'Dt': len(c.Dt), 'T': int(c.T), 'I_minor_in_major': len(minor)}
+                if hasattr(c, 'discount_factors'):
+                    lens['discount_factors'] = len(c.discount_factors)
+                if len(set(lens.values())) != 1:
+                    V.append(_viol('coarse_partition', 'the arrays of the coarse grid do not have one entry per coarse step: %s' % lens, kind='coarse_lengths', **facts))
                 if len(set(flat)) != len(flat):
                     V.append(_viol('coarse_partition', 'minor lists are not disjoint', kind='coarse_not_disjoint', **facts))
                 if flat != sorted(flat) or (flat and flat != [x for x in winI if flat[0] <= x <= flat[-1]]):
@@ -1149,7 +1182,7 @@ def oracle_values(case, ir, cur, base):
         if 'err' not in got or got['err'] != 'value':
             V.append(_viol('values_unique', 'a grid point lies in two intervals but no ValueError (%s)' % (got.get('err') or 'returned'), kind='overlap_missed', **facts))
     elif 'err' in got:
-        kind = 'values_on_empty_coarse' if (len(pts) == 0 and got['err'] == 'type') else 'values_raise'
+        kind = 'values_raise'     # (also on an empty coarse grid: finding F-19e is repaired)
         V.append(_viol('values_unique', 'no grid point lies in two intervals but the call raises %s: %s' % (got['err'], got.get('msg')), kind=kind, T=len(pts), **facts))
     elif got['ok'] != expect:
         bad = [k for k, (a, b) in enumerate(zip(got['ok'], expect)) if a != b]
@@ -1157,6 +1190,25 @@ def oracle_values(case, ir, cur, base):
         V.append(_viol('values_unique', 'point %d (%s): got %s, the interval containing it gives %s (%d points differ)'
                        % (bad[0], pts[bad[0]], got['ok'][bad[0]], expect[bad[0]], len(bad)), kind=kind, **facts))
     return V
+
+
+def hyp_coarse(case, ir, mr):
+    """hypotheses of EAO.C19.coarse_partition / _whole / _clipped evaluated on the real reference grid and the cuts: reference
+    points and cuts non-decreasing, as many step lengths as indices as points (a skipped interval is recognised by its indices)"""
+    out = []
+    O = ir.get('_obj', {})
+    ref, c = O.get('coarse_ref'), O.get('coarse')
+    if ref is None or c is None or not hasattr(c, 'I_minor_in_major'):
+        return out
+    tp = list(ref.timepoints)
+    if any(b < a for a, b in zip(tp[:-1], tp[1:])):
+        out.append('hypothesis of coarse_partition not met by the real reference grid: points decrease')
+    if not (len(ref.I) == len(tp) == len(ref.dt) == len(ref.Dt)):
+        out.append('hypothesis of coarse_partition not met by the real reference grid: len I %d, points %d, dt %d, Dt %d' % (len(ref.I), len(tp), len(ref.dt), len(ref.Dt)))
+    cuts = (mr.get('coarse') or {}).get('cuts')
+    if cuts is not None and any(b < a for a, b in zip(cuts[:-1], cuts[1:])):
+        out.append('hypothesis of coarse_partition not met: the coarse cuts decrease: %s' % cuts[:6])
+    return out
 
 
 # ------------------------------------------------------------------------------------------ running
@@ -1183,13 +1235,36 @@ def features(case, ir):
     return f
 
 
+def coarse_features(ir, mr):
+    """how the coarse window lies relative to the reference grid: pairs of cuts skipped because they hold no fine step"""
+    c, m = ir.get('coarse'), mr.get('coarse')
+    if not isinstance(c, dict) or not isinstance(m, dict) or 'err' in c or c.get('same_freq', True) or 'cuts' not in m or 'pts' not in ir.get('restricted', ir.get('grid', {})):
+        return []
+    cuts = m['cuts']
+    ref = ir.get('restricted', ir['grid'])['pts']
+    pairs = list(zip(cuts[:-1], cuts[1:]))
+    empty = [k for k, (a, b) in enumerate(pairs) if not any(a <= p < b for p in ref)]
+    if not empty:
+        tag = 'none'
+    elif len(empty) == len(pairs):
+        tag = 'all'
+    else:
+        tag = '+'.join(x for x, t in (('leading', 0 in empty), ('trailing', len(pairs) - 1 in empty)) if t) or 'inner'
+    f = ['coarse-skipped:' + tag]
+    if pairs and ref and 0 not in empty and cuts[0] < ref[0]:
+        f.append('coarse-first-interval-partly-outside')
+    if empty and len(empty) < len(pairs):
+        f.append('coarse-steps-with-skips')
+    return f
+
+
 def run_case(case, drv):
     ir = run_impl(case)
     mr = run_model(case, drv, ir)
-    dis = compare(case, ir, mr)
+    dis = compare(case, ir, mr) + hyp_coarse(case, ir, mr)
     vio = oracle(case, ir)
     nontrivial = 'grid' in ir and 'err' not in ir['grid'] and ir['grid'].get('T', 0) > 1
-    return {'evaluated': 1, 'nontrivial': bool(nontrivial), 'features': features(case, ir), 'disagreements': dis, 'violations': vio}
+    return {'evaluated': 1, 'nontrivial': bool(nontrivial), 'features': features(case, ir) + coarse_features(ir, mr), 'disagreements': dis, 'violations': vio}
 
 
 def cases(seed, n, small=False):
